@@ -16,7 +16,7 @@ From Coq Require Import Arith Bool List String.
 Import ListNotations.
 From Ice Require Import Model.PrioSpec Model.TaskLoop Gen.LoopDiscipline
      Proofs.TaskLoopInv Proofs.TaskLoopProofs Proofs.LoopDisciplineProofs
-     Proofs.TaskLoopMonA Proofs.TaskLoopMonB Proofs.TaskLoopMonC.
+     Proofs.TaskLoopMonA Proofs.TaskLoopMonB Proofs.TaskLoopMonC Model.ApiSeq Proofs.ApiSeqProofs.
 
 (* at most one task body is executing in any reachable state *)
 Theorem C10_serial : forall s, reach s ->
@@ -110,6 +110,25 @@ Theorem C10_goroutines_go_through_loop_partial : forall r f,
   In r goroutine_table -> In f (r_outside r) -> f = "localUfrag"%string.
 Proof. exact goroutines_go_through_loop. Qed.
 Print Assumptions C10_goroutines_go_through_loop_partial.
+
+(* Pairs of overlapping public calls are judged against the sequential semantics Model/ApiSeq.v
+   (monitor C10_api2_checks: the observed results, and final state, are those of SOME serial order
+   of the two calls).  What that monitor accepts for two overlapping starts -- any mix of
+   StartDial / Dial / StartAccept / Accept -- is exactly "one succeeded, the other got
+   ErrMultipleStart"; a getter overlapping a mutator returns a whole credential pair.
+   PARTIAL: these are statements about the sequential spec and the monitor; that the real methods
+   are linearizable is checked on the implementation by the api2 cases, not proved. *)
+Theorem C10_concurrent_starts_one_wins_partial : forall ctl1 c1 ctl2 c2 r1 r2,
+  results_of_some_order (AStart ctl1 c1) (AStart ctl2 c2) r1 r2 = true <->
+  (r1 = AOk /\ r2 = AMulti) \/ (r1 = AMulti /\ r2 = AOk).
+Proof. exact starts_one_wins. Qed.
+Print Assumptions C10_concurrent_starts_one_wins_partial.
+
+Theorem C10_getter_sees_whole_state_partial : forall c r1 r2,
+  results_of_some_order AGetRemote (ASetRemote c) r1 r2 = true ->
+  r2 = AOk /\ (r1 = ACred 0 \/ r1 = ACred c).
+Proof. exact getter_sees_whole_state. Qed.
+Print Assumptions C10_getter_sees_whole_state_partial.
 
 (* ---- non-vacuity --------------------------------------------------------------------------- *)
 (* a schedule in which submission 0 runs and returns nil, submission 1 is refused with ErrClosed,
